@@ -617,6 +617,8 @@ def segment_packing(ctx, facts, rule):
     for bb, t in b.calls():
         if (F.callee(t)[0] or "").endswith("IndexMut::index_mut") and "'vec'" in str(flow.expr_of(b, t["args"][0])):
             idx = (bb, flow.fold(flow.expr_of(b, t["args"][1], max_depth=40)))
+        elif idx is None and re.search(r"(<impl \[T\]>|Vec::<T, A>)::get_mut$", F.callee(t)[0] or "") and "'vec'" in str(flow.expr_of(b, t["args"][0])):
+            idx = (bb, flow.fold(flow.expr_of(b, t["args"][1], max_depth=40)))          # `if let Some(block) = self.vec.get_mut(k)`: the same slot
     nblk = None
     for nd in (walk_all(idx[1]) if idx else []):
         if nd[0] == "agg" and isinstance(nd[1], tuple) and nd[1][0] == "std::ops::Range":
